@@ -434,6 +434,9 @@ class Origins:
         shipped root only)"""
         if op.is_const:
             return {self._const(op, fields)}
+        # virtual operands (arguments seen through a helper function) carry the field path the
+        # helper reads from its parameter
+        fields = tuple(getattr(op, "extra_fields", ())) + tuple(fields)
         if at is not None:
             out = set()
             self._at = True
